@@ -230,6 +230,16 @@ func GenCompose(prop string, seed uint64, pool *Pool) *Plan {
 					st.Patches = append(st.Patches, map[string]any{"action": "ietf-json-patch", "patches": genRFC6902Clean(r, docK)})
 				}
 			}
+			// any patch list is in C12's quantifier, also ones validation would refuse: empty operation arrays (they
+			// apply as no-ops) in front of patches that edit the document
+			if r.Chance(1, 5) {
+				empties := []any{}
+				for n := r.Range(1, 2); n > 0; n-- {
+					empties = append(empties, map[string]any{"action": "ietf-json-patch", "patches": []any{}})
+				}
+				st.Patches = append(empties, st.Patches...)
+			}
+			st.Args["ctor"] = r.Chance(1, 2)
 		default: // C10
 			var other []string
 			st.Patches = genPatches(r, pool, s, 4, &other)
